@@ -264,6 +264,35 @@ theorem c10_crash_inplace_counterexample :
       load d' = .error .truncated := by
   refine ⟨_, _, _, rfl, rfl, by decide, by decide, .step _ _ _ _ (.stop _ _), by decide⟩
 
+/-! ## The temporary file is invisible to `load` -/
+
+/-- **`load` never looks at the temporary file**: whatever a crashed save left in `<path>.tmp`
+is invisible to the next load. -/
+theorem c10_load_ignores_tmp (d : Disk) (tmp : Option Bytes) :
+    load { d with tmp := tmp } = load d := rfl
+
+/-- A tempting variant of `load` ("pick up the snapshot a save interrupted right before the rename
+left in the temporary file when there is no retain file yet"); kept only for the counterexample
+below. -/
+def loadTmpFallback (d : Disk) : Except Err Snapshot :=
+  match d.main with
+  | some bytes => decodeSnapshot bytes
+  | none =>
+    match d.tmp with
+    | some bytes => decodeSnapshot bytes
+    | none => .ok .nil
+
+/-- … and why `c10_load_ignores_tmp` matters: with that fallback the very first save is no longer
+crash atomic — dying right after the temp file was created leaves an empty temp file, and the
+next load is an error instead of the empty snapshot or the new one.  (`c10_crash_first_save`
+holds for the real `load`.) -/
+theorem c10_tmp_fallback_counterexample :
+    ∃ d', WfSnapshot exNew ∧ Crash (storeOps exNew) ⟨none, none⟩ d' ∧
+      loadTmpFallback d' = .error .truncated ∧
+      (load d' = .ok .nil ∨ load d' = .ok exNew) := by
+  refine ⟨applyOp ⟨none, none⟩ (.createTrunc .tmp), by decide, ?_, by decide, .inl (by decide)⟩
+  exact .step _ _ _ _ (.stop _ _)
+
 /-! ## Non-vacuity -/
 
 def exSnap : Snapshot :=
